@@ -373,4 +373,20 @@ def openObj (s : State) (fam : Nat) (isDict : Bool) (res : Nat) (data : Option J
 /-- an outside writer replaces the resource's content -/
 def extWrite (s : State) (res : Nat) (d : J) : State := s.setStore res d
 
+/-! ### histories -/
+
+/-- a step of a sequential history on one family: a public call through any handle, a constructor
+call (with or without data), an outside writer replacing a resource's content -/
+inductive SStep where
+  | call (h : Handle) (op : Op)
+  | openObj (isDict : Bool) (res : Nat) (data : Option J)
+  | ext (res : Nat) (d : J)
+
+def sstep (s : State) : SStep → State
+  | .call h op => (call s h op).1
+  | .openObj d r data => (openObj s 0 d r data).1
+  | .ext r d => extWrite s r d
+
+def srun (s : State) (history : List SStep) : State := history.foldl sstep s
+
 end SC
